@@ -35,7 +35,7 @@ def shards(tier, seed):
     return [{"kind": "maps", "index": i, "of": n} for i in range(n)]
 
 
-def build(rules, strict, merge, redirect_defaults, sort_parameters=False):
+def build(rules, strict, merge, redirect_defaults, sort_parameters=False, late=0, warm=None):
     from werkzeug.routing import Map, Rule
 
     rl = []
@@ -54,6 +54,14 @@ def build(rules, strict, merge, redirect_defaults, sort_parameters=False):
             rl.append(Rule(R.rule_str(r), endpoint=r["ep"], **kw))
         else:
             rl.append(Rule(R.rule_str(r), endpoint=r["ep"], methods=r["methods"], **kw))
+    if late and len(rl) >= 2:
+        # history: the map answers requests before its last rules are added
+        m = Map(rl[:-late], strict_slashes=strict, merge_slashes=merge, redirect_defaults=redirect_defaults, sort_parameters=sort_parameters)
+        if warm is not None:
+            warm(m)
+        for r_ in rl[-late:]:
+            m.add(r_)
+        return m
     return Map(rl, strict_slashes=strict, merge_slashes=merge, redirect_defaults=redirect_defaults, sort_parameters=sort_parameters)
 
 
@@ -117,12 +125,36 @@ def check_map(rec, rng, rules, strict, merge, rd, script, scheme, sub):
     all_rules = rules
     if mixed and any(r["ws"] != ws for r in rules):
         rec.observe("maps_mixing_http_and_websocket_rules")
+    late = rng.randint(1, len(rules) - 1) if len(rules) >= 2 and rng.random() < 0.3 else 0
+    if late:
+        rules = list(rules)
+        rng.shuffle(rules)  # which rules arrive late is arbitrary (a defaults rule, an alias, a canonical rule ...)
+        all_rules = rules
+        warm_paths = C3.gen_paths(rng, rules, 2)[:25]
+
+        def warm(m_):
+            a_ = m_.bind("h.com", script, subdomain=sub, url_scheme=scheme)
+            for wp in warm_paths:
+                for wm in ("GET", "POST"):
+                    try:
+                        a_.match(wp, method=wm)
+                    except HTTPException:
+                        pass
+        rec.observe("maps_extended_after_first_use")
+    else:
+        warm = None
     try:
-        m = build(rules, strict, merge, rd, sortp)
+        m = build(rules, strict, merge, rd, sortp, late, warm)
     except Exception as e:
         rec.observe(f"map_build_error:{type(e).__name__}")
         return
     ad = m.bind("h.com", script, subdomain=sub, url_scheme=scheme)
+    ref_ad = None
+    if late:
+        try:
+            ref_ad = build(all_rules, strict, merge, rd, sortp).bind("h.com", script, subdomain=sub, url_scheme=scheme)
+        except Exception:  # noqa: BLE001
+            ref_ad = None
     host = f"{sub}.h.com" if sub else "h.com"
     paths = hostile_paths(rng, C3.gen_paths(rng, rules, 3))
     strs = [R.rule_str(r) for r in rules]
@@ -146,6 +178,22 @@ def check_map(rec, rng, rules, strict, merge, rd, script, scheme, sub):
         else:
             A, mkw = ad, {"query_args": q}
         case = dict(base_case, path=p, query=qkind, method=method, query_bound_to_adapter=bound)
+        if ref_ad is not None and not bound:
+            # a map extended after its first use answers like one that had all the rules from the start
+            def _o(a_):
+                try:
+                    ep_, ar_ = a_.match(p, method=method, query_args=q)
+                    return ("match", ep_, tuple(sorted(ar_.items(), key=lambda kv: kv[0])))
+                except RequestRedirect as e_:
+                    return ("redirect", e_.new_url)
+                except HTTPException as e_:
+                    return (type(e_).__name__,)
+                except Exception as e_:  # noqa: BLE001
+                    return ("EXC", type(e_).__name__)
+            g_, x_ = _o(ad), _o(ref_ad)
+            if g_ != x_:
+                rec.violation("C12/map-extended-after-use-answers-differently", f"{p!r} {method}: {g_!r}, a map built at once answers {x_!r}; {case}", case, monitor="history")
+                continue
         try:
             A.match(p, method=method, **mkw)
             rec.observe("no_redirect")
@@ -198,6 +246,8 @@ def check_map(rec, rng, rules, strict, merge, rd, script, scheme, sub):
         # follow
         seen, cur, hops, final = {url}, url, 0, None
         bad = None
+        first_target = unquote(u.path[len(sp):])
+        hop_kinds = ["slash" if first_target == pp + "/" else "merge" if R.merge(pp).rstrip("/") == R.merge(first_target).rstrip("/") else "canonical"]
         while hops < 6:
             path = unquote(urlsplit(cur).path[len(sp):])
             try:
@@ -205,6 +255,15 @@ def check_map(rec, rng, rules, strict, merge, rd, script, scheme, sub):
                 break
             except RequestRedirect as e2:
                 hops += 1
+                nxt_path = unquote(urlsplit(e2.new_url).path[len(sp):])
+                hk = "slash" if nxt_path == path + "/" else "merge" if R.merge(path).rstrip("/") == R.merge(nxt_path).rstrip("/") else "canonical"
+                eps_here = {r["ep"] for r in rules if R.ok_method(r, method) and any((a_ := R.admits(r, path, st_)) and a_[0] == "match" for st_ in (True, False))}
+                if hk == "canonical" and hop_kinds and hop_kinds[-1] == "canonical" and len(eps_here) > 1:
+                    rec.observe("ambiguous_target_tolerated")  # the intermediate URL belongs to several endpoints: which one answers is C03's subject
+                elif hk == "canonical" and hop_kinds and hop_kinds[-1] == "canonical":
+                    bad = ("C12/redirect-target-needs-a-redirect-of-the-same-kind", f"{url!r} -> {cur!r} -> {e2.new_url!r}: two defaults/alias canonicalisations in a row")
+                    break
+                hop_kinds.append(hk)
                 cur = e2.new_url
                 u2 = urlsplit(cur)
                 if u2.scheme != scheme or u2.netloc != host:
@@ -271,6 +330,13 @@ def gen_rules(rng):
                 # the rule providing the defaults answers fewer / other methods than the rule it shortens
                 base["methods"] = rng.choice([["GET"], ["POST"], None])
             extra.append(base)
+            segs_ = r["segs"]
+            if len(segs_) >= 2 and segs_[-2][0] == "var" and segs_[-2][1] == segs_[-2][3] == "" and segs_[-2][2][0] in ("int", "string") and rng.random() < 0.6:
+                # a second level: a still shorter rule providing defaults for the last two variables
+                # (/blog/<year>/<page>, /blog/<year>/ and /blog/): the canonical URL is reached in one redirect
+                prev = segs_[-2]
+                dvp = 2024 if prev[2][0] == "int" else "yy"
+                extra.append(dict(r, segs=list(segs_[:-2]), defaults={prev[4]: dvp, last[4]: dv}, branch=True if not segs_[:-2] else r["branch"]))
             if rng.random() < 0.5:
                 # an alias whose *defaults* select the canonical URL: /old<k>.html -> build(endpoint, var=value)
                 dv2 = 7 if last[2][0] == "int" else "ab"
@@ -282,6 +348,56 @@ def gen_rules(rng):
             extra.append(al)
     extra = [e for e in extra if e.get("only_if_single_var", True)]
     return rules + extra
+
+
+def late_rule_histories(rec, rng, n):
+    """History: a map that has already answered requests gets further rules of the same endpoint (Map.add): from
+    then on it redirects exactly like a map that had all the rules from the start - in particular straight to the
+    canonical URL, not through an intermediate one."""
+    from werkzeug.exceptions import HTTPException
+    from werkzeug.routing import Map, Rule
+    from werkzeug.routing.exceptions import RequestRedirect
+
+    def outcome(ad, p, method="GET"):
+        try:
+            ep, args = ad.match(p, method=method)
+            return ("match", ep, tuple(sorted(args.items())))
+        except RequestRedirect as e:
+            return ("redirect", e.new_url)
+        except HTTPException as e:
+            return (type(e).__name__,)
+
+    for _ in range(n):
+        a = rng.choice(["blog", "x1", "ab", "é"])
+        dy, dp = rng.choice([2024, 7]), rng.choice([1, 3])
+        specs = [(f"/{a}/<int:y>/<int:p>", None), (f"/{a}/<int:y>/", {"p": dp}), (f"/{a}/", {"y": dy, "p": dp}), (f"/old-{a}", {"y": dy, "p": 9}), ("/other/<string:s>", None)]
+        flags = [{}, {}, {}, {"alias": True}, {}]
+        eps = ["e", "e", "e", "e", "o"]
+        order = list(range(len(specs)))
+        rng.shuffle(order)
+        k = rng.randint(1, len(order) - 1)
+
+        def mk(i):
+            return Rule(specs[i][0], endpoint=eps[i], defaults=specs[i][1], **flags[i])
+
+        script, scheme = rng.choice(["/", "/app"]), rng.choice(["http", "https"])
+        m = Map([mk(i) for i in order[:k]])
+        ad = m.bind("h.com", script, url_scheme=scheme)
+        paths = [f"/{a}/{dy}/{dp}", f"/{a}/2023/7", f"/{a}/2023/{dp}", f"/{a}/{dy}/", f"/{a}/2023/", f"/{a}/", f"/old-{a}", f"/{a}/{dy}/{dp}/", "/other/q", "/nope"]
+        for p in rng.sample(paths, rng.randint(1, 6)):
+            outcome(ad, p)  # the map is in use
+        for i in order[k:]:
+            m.add(mk(i))
+        ref = Map([mk(i) for i in order]).bind("h.com", script, url_scheme=scheme)
+        rec.case()
+        rec.observe("late_rule_histories")
+        rec.nontrivial(("late", a, tuple(order), k, script, scheme))
+        for p in paths:
+            got, exp = outcome(ad, p), outcome(ref, p)
+            if got != exp:
+                rec.violation("C12/map-extended-after-use-answers-differently", f"{p!r}: {got!r}, a map that had all rules from the start answers {exp!r}; rules added in order {[specs[i][0] for i in order]}, first {k} before the first request",
+                              {"rules": [specs[i][0] for i in order], "first": k, "path": p}, monitor="history")
+                break
 
 
 def concurrent_first_use(rec, rng, n):
@@ -365,6 +481,7 @@ def run(shard, rec, rng):
                         "MapAdapter.encode_query_args": opt(lambda: MP.MapAdapter.encode_query_args), "MapAdapter.get_host": opt(lambda: MP.MapAdapter.get_host)})
     cfg = TIERS[shard["_tier"]]
     concurrent_first_use(rec, rng, 5 if shard["_tier"] == "quick" else 30)
+    late_rule_histories(rec, rng, 60 if shard["_tier"] == "quick" else 600)
     for _ in range(cfg["maps"]):
         rules = gen_rules(rng)
         check_map(rec, rng, rules, rng.random() < 0.6, rng.random() < 0.6, rng.random() < 0.8, rng.choice(["/", "/app", "/app/", "/a/b"]),
